@@ -66,6 +66,13 @@ class Instance:
         return self.oe.class_getattr(self.c, name, self)
 
     def sa_setattr(self, name: str, v):
+        for k in self.oe.repo.mro_classes(self.c):
+            st = k.method(name, "setter")
+            if st is not None:
+                self.oe.call_func(st, [self, v], {}, k)  # a property with a setter: the setter runs
+                return
+            if k.method(name) is not None or name in k.attrs:
+                break
         self.fields[name] = v
 
     def sa_iter(self):
@@ -377,7 +384,13 @@ def _bytesio(data=b""):
     return io.BytesIO(bytes(data))
 
 
+def _compile(source, filename="<string>", mode="exec", flags=0, dont_inherit=True, optimize=-1):
+    # compiling text to a code object executes nothing; never inherit this analyser's own __future__ flags
+    return compile(source, filename, mode, flags, True, optimize)
+
+
 SPEC_CALLABLES = {
+    "marshal.dumps": _Spec(__import__("marshal").dumps, "marshal.dumps"),
     "pickletools.genops": _Spec(_genops, "pickletools.genops"),
     "ast.unparse": _Spec(ast.unparse, "ast.unparse"),
     "ast.dump": _Spec(ast.dump, "ast.dump"),
@@ -393,6 +406,7 @@ import pickle as _pickle_spec  # constants of the reader's side only; nothing is
 
 SPEC_CONSTANTS = {"sys.builtin_module_names": __import__("sys").builtin_module_names, "sys.stdlib_module_names": __import__("sys").stdlib_module_names, "pickle.HIGHEST_PROTOCOL": _pickle_spec.HIGHEST_PROTOCOL, "pickle.DEFAULT_PROTOCOL": _pickle_spec.DEFAULT_PROTOCOL, "sys.maxsize": __import__("sys").maxsize, "sys.byteorder": __import__("sys").byteorder}
 _BUILTIN_SPECS = {
+    "compile": _Spec(_compile, "compile"),
     "repr": _Spec(repr, "repr"), "ascii": _Spec(ascii, "ascii"),
     "abs": _Spec(abs, "abs"), "divmod": _Spec(divmod, "divmod"), "hex": _Spec(hex, "hex"), "round": _Spec(round, "round"),
 }
